@@ -43,13 +43,22 @@ def one(ctx, mods, np, s1, s2, kw, nd):
 
     psi_t = oracle.norm_psi(kw.get("psi"))
     model = {}
+    BT_CODES = [getattr(g_, "__wrapped__", g_).__code__ for g_ in (dtw.best_path, dtw.best_path2)
+                if hasattr(getattr(g_, "__wrapped__", g_), "__code__")]
 
     def run(fname, f, want=None, start=None, extra=None):
         ctx.current("%s %r %r %r" % (fname, L1, L2, kwn))
         if start is None and (psi_t[1] or psi_t[3]) and "paths" in model:
             extra = dict(extra or {}, psi_end_active=True, greedy_model_paths=model["paths"])
         try:
-            res = f()
+            # bounded progress: back-tracking visits at most r + c cells, so it finishes within a fixed number of
+            # executed lines per cell (a logical bound; a wall-clock timeout would only be inconclusive)
+            with monitors.step_bound(BT_CODES, 400 * (r + c + 5)):
+                res = f()
+        except monitors.StepLimit as e:
+            ctx.violation("invalid-path", fn=fname, reason="no progress: " + str(e), s1=L1, s2=L2,
+                          settings=dict(dtwmon.settings_key(kwn)), path=[], **(extra or {}))
+            return None
         except Exception as e:
             ctx.violation("exception", fn=fname, s1=L1, s2=L2, settings=dict(dtwmon.settings_key(kwn)),
                           error=repr(e)[:300], **(extra or {}))
